@@ -50,6 +50,7 @@ THEOREMS = [
     "IrVerif.Scope.C17_ext_sharding_named_model",
     "IrVerif.Scope.C17_idempotent_partial",
     "IrVerif.Scope.C17_ext_payload_fixpoint",
+    "IrVerif.Scope.C17_ir9_entries_inert",
 ]
 ASSUMPTIONS = [
     "byte-level parsing is protobuf's; Python RecursionError counts as 'raises'",
@@ -73,7 +74,9 @@ ASSUMPTIONS = [
     "10 only the main graph is",
     "IR version < 10 function value-info format (Model/ScopeFunc9.lean, scope.mdeser9): modelled (post-pass, "
     "experimental names, reserved names of D320's repair); C17_ir9_not_idempotent refutes the fix-point for the code "
-    "before the repair; for the repaired code the fix-point is differential (model Q and Q2 against the real "
+    "before the repair; for the repaired code the experimental entries are proved inert for the main graph "
+    "(C17_ir9_entries_inert; hypothesis: initializers keyed by the name of their value, counter "
+    "ir9_init_keys_named), the rest of the fix-point is differential (model Q and Q2 against the real "
     "ones) and oracle-checked, not proved; value-level metadata on such models is compared leniently",
     "C17_idempotent / C17_idempotent_model are proved for every proto of the core model (dangling / duplicate / "
     "shadowed names, placeholders, unproduced outputs, duplicate function identifiers included); the model's "
@@ -1041,8 +1044,12 @@ def diff_case(part, out: dict, case, flags, model, err, q) -> None:
         return
     if flags.get("ir9"):
         # IR < 10: the model does not claim a fix-point (C17_ir9_not_idempotent); its second serialization is
-        # compared with the real one below
-        pass
+        # compared with the real one below.  Hypothesis of C17_ir9_entries_inert (the main-graph initializers are
+        # keyed by the name of their value): share published
+        part.count(f"ir9_init_keys_named={out.get('init_keys_named')}")
+        if out.get("init_keys_named") is not True:
+            part.disagree("model: a deserialized IR < 10 model has an initializer keyed by another name than its "
+                          "value's (contradicts C17_consistent.tree)", case, out.get("init_keys_named"), True)
     elif not out.get("ser_ok") or not out.get("deser2_ok") or not out.get("ser2_ok") or out.get("q") != out.get("q2"):
         # C17_idempotent is a theorem about the model: the driver contradicting it means the executable is
         # not the model the proofs are about
